@@ -6,9 +6,9 @@ From MT Require Import Types Infer GetTypeSound.
    (well-formed: dict keys distinct) values: whenever inference returns a type, every observed
    value is a member of it. *)
 Theorem infer_sound :
-  forall (h : hierarchy) (k : nat) (vs : list value) (t : ty) (v : value),
+  forall (anyb : bool) (h : hierarchy) (k : nat) (vs : list value) (t : ty) (v : value),
     forallb wf_valueb vs = true -> infer k vs = Some t -> In v vs ->
-    member (subclass h) v t = true.
+    member anyb (subclass h) v t = true.
 Proof. exact infer_sound_hier. Qed.
 Print Assumptions infer_sound.
 
